@@ -14,6 +14,7 @@ From GV Require Import Sched Events.
 Local Open Scope Z_scope.
 
 (* ---------- client operations ---------- *)
+(* future slots >= 100: the submitted functor returns void (std::future<void>: get() yields no value, reported as 0) *)
 Inductive op :=
 | ModifyDetach (fid : Z) | ModifyAsync (fid slot : Z)
 | LockShared (h : Z) | TryLockShared (h : Z) | TryLockSharedFor (h : Z) | TryLockSharedUntil (h : Z)
@@ -223,7 +224,7 @@ Definition start_op (t : nat) (g : glob) (l : loc) (o : op) : glob * loc * list 
     | Some tk =>
       match tfut g tk with
       | FPending => stay (-2)
-      | FVal v => (g, Loc (prog l) Idle (hand l) (fremove s (futs l)), [inv_ev o; ret v])
+      | FVal v => (g, Loc (prog l) Idle (hand l) (fremove s (futs l)), [inv_ev o; ret (if 100 <=? s then 0 else v)])
       | FExn => (g, Loc (prog l) Idle (hand l) (fremove s (futs l)), [inv_ev o; ret (-3)])
       end
     end
